@@ -74,10 +74,8 @@ def dfs_plans(tier, sticky):
     if sticky:
         p["sticky2_ready_one"] = "X1:q O0:U:v1:a O1:U:v2:d C0:F:t:on1.as0+1"
     if tier == "thorough":
-        p["shared_2_threads"] = "O0:S:v7:d C0:F:t:co0 C1:F:m:co0"
         p["shared_3_main"] = "O0:S:v7:d C0:F:m:co0 C1:F:m:co0 C2:F:m:ai0"
         p["await2"] = "O0:U:v1:d O1:S:v2:d C0:F:m:ai0+1"
-        p["await2_dyn"] = "O0:U:v1:d O1:U:e2:d C0:F:m:di0+1"
         p["awaiton2"] = "X1:q O0:S:v1:d O1:S:v2:d C0:F:m:an1_0+1"
         if sticky:
             p["sticky2"] = "X1:q O0:U:v1:d O1:S:v2:d C0:F:t:on1.as0+1"
@@ -200,6 +198,7 @@ def collect(ck, R, plans, mode, args, stats, check_model=True):
     """Run, turn oracle failures into hits, replay the rest through the model."""
     heads, traces = [], []
     todo = dict(plans)
+    t_stage = time.time()
     while todo:
         rows, out, err, rc = R.run(todo, mode, args)
         hs = [r for r in rows if "mode" in r]
@@ -237,8 +236,11 @@ def collect(ck, R, plans, mode, args, stats, check_model=True):
         else:
             good.append(t)
     stats["distinct"] += len(traces)
+    stats.setdefault("stages", []).append(dict(config=R.cfg, mode=mode, scenarios=len(heads), executions=sum(h["executions"] for h in heads),
+                                               distinct=len(traces), explore_s=round(time.time() - t_stage, 1)))
     if not check_model:
         return traces
+    t_stage = time.time()
     terms, metas = [], []
     for t in good:
         plan = M.Plan(plans[t["scenario"]])
@@ -250,6 +252,7 @@ def collect(ck, R, plans, mode, args, stats, check_model=True):
         terms.append("obs_nat %s [%s]" % (plan.coq_config(), "; ".join(evs)))
         metas.append((t, plan, obs, evs))
     res, logs = vlib.coq_eval_cases(HEADER, terms, "c13_%s" % R.cfg.lower()) if terms else ([], [])
+    stats["stages"][-1]["replay_s"] = round(time.time() - t_stage, 1)
     for (t, plan, obs, evs), r in zip(metas, res):
         if r is None:
             stats["bad"].append((R.cfg, t, plan, "model evaluation failed: " + (logs[0][-400:] if logs else "")))
@@ -345,6 +348,10 @@ def main(ck):
     for k, v in big.items():                      # one at a time: each has 10^4..10^5 distinct traces
         all_traces += collect(ck, R, {k: v}, "dfs", ["--max", "1500000"], stats)
     mixes = random_plans(rng, 60 if thorough else 24, sticky)
+    # too large to enumerate: sampled
+    mixes["shared_2_threads"] = "O0:S:v7:d C0:F:t:co0 C1:F:m:co0"
+    mixes["shared_chain3"] = "O0:S:v7:d C0:S:m:co0 C1:F:m:co1 C2:F:t:co1"
+    mixes["await2_dyn"] = "O0:U:v1:d O1:U:e2:d C0:F:m:di0+1"
     all_traces += collect(ck, R, mixes, "random", ["--max", "400" if thorough else "120", "--seed", str(ck.seed)], stats)
     if thorough:
         # without symmetric transfer: the same small exhaustive set and a third of the mixes, with correspondence
@@ -393,6 +400,7 @@ def main(ck):
     if not all_traces:
         ck.broken.append(dict(name="correspondence Await.run vs implementation", detail="harness produced no traces"))
     ck.cov["stage_seconds"] = round(time.time() - t0, 1)
+    ck.cov["stages"] = stats.get("stages", [])
 
 
 def replay(ck, path):
